@@ -5,4 +5,6 @@ cd /verif
 export GOFLAGS=-mod=mod GOPROXY=off GOSUMDB=off GOTOOLCHAIN=local
 tools/gen_shimpipe.sh
 tools/build.sh all
+tools/build.sh narrow
+tools/build.sh sched
 echo setup ok
